@@ -528,10 +528,32 @@ func t1closureCase(o *suiteOut, line string) {
 	var x []byte
 	var err error
 	var pan string
-	if f[2] == "model" {
+	if f[2] == "model" || f[2] == "bigmodel" || f[2] == "stdput" {
 		// a font only a foreign writer produces: rendered by the harness's independent writer
 		rr := newRng(seed)
-		x, _ = randModelFont(rr).render(rr)
+		mf := randModelFont(rr)
+		if f[2] == "bigmodel" {
+			// more than 64 kB of charstrings (the length fields of a PFB file need more than two bytes)
+			for i := 0; i < 1700; i++ {
+				mf.glyphs[fmt.Sprintf("g%04d", i)] = randModelGlyph(rr)
+			}
+		}
+		if f[2] == "stdput" {
+			// the font has its own encoding array, which happens to say what the standard encoding says; glyphs A and B exist
+			mf.stdEnc = false
+			mf.encoding = append([]string{}, psenc.StandardEncoding[:]...)
+			for _, n := range []string{"A", "B"} {
+				if mf.glyphs[n] == nil {
+					mf.glyphs[n] = randModelGlyph(rr)
+				}
+			}
+		}
+		x, _ = mf.render(rr)
+		if f[2] == "stdput" {
+			// ... and its program stores into StandardEncoding before that (legal: it is an ordinary array of this
+			// interpreter); this must stay the private affair of the run that did it
+			x = bytes.Replace(x, []byte("/FontName"), []byte("StandardEncoding 65 /B put StandardEncoding 39 /A put\n/FontName"), 1)
+		}
 	} else {
 		src := unusualFont(newRng(seed))
 		x, err, pan = writeFont(src, type1.FormatPFA)
@@ -592,6 +614,14 @@ func suiteT1closure(o *suiteOut, r *rng, tier string, n int) {
 	}
 	if n > 0 {
 		nr = n
+	}
+	for i, ff := range allFormats {
+		t1closureCase(o, fmt.Sprintf("t1closure %d bigmodel %s", 9100+i, formatName(ff)))
+		o.count("fonts with more than 64 kB of charstrings")
+	}
+	for i := 0; i < 12; i++ {
+		t1closureCase(o, fmt.Sprintf("t1closure %d stdput %s", 9200+i, formatName(allFormats[i%len(allFormats)])))
+		o.count("font programs that store into StandardEncoding")
 	}
 	for i := 0; i < nr; i++ {
 		seed := r.next() % 1000000007
